@@ -9,7 +9,7 @@ import glob, json, os
 from .common import c18env
 
 PROPERTY = "C18"
-LEAN_MODULES = ["AioProps.C18", "AioProps.C18Ws"]
+LEAN_MODULES = ["AioProps.C18", "AioProps.C18Ws", "AioProps.C18Timer"]
 THEOREMS = [
     "Aio.C18.ceilSec_bounds",
     "Aio.C18.totalDeadline_spec",
@@ -34,6 +34,9 @@ THEOREMS = [
     "Aio.C18.effWs_default_close",
     "Aio.C18.ws_close_bound",
     "Aio.C18.ws_close_unbounded",
+    "Aio.C18.tc_exit_spec",
+    "Aio.C18.tc_caller_cancel_surfaces",
+    "Aio.C18.tc_nested_swallows_one_cancel",
 ]
 RULE = ("one scripted exchange of the real ClientSession/TCPConnector under virtual time: the stall phase is drawn from "
         "{pool wait, DNS, connect, send body, inside the response head (any byte position), inside the body (any byte "
@@ -52,6 +55,9 @@ RULE = ("one scripted exchange of the real ClientSession/TCPConnector under virt
         "cancelled / timed out with no follower and a co-request for the same host arriving in the same callback, 1-3 loop "
         "iterations or milliseconds later, with a resolver that unwinds slowly when cancelled; gzip bodies streamed by a slow "
         "consumer (oracle only); WebSocket close: every way of passing ws timeouts x silent/answering peer x caller cancel. "
+        "Every request scenario is run from a calling task with task.cancelling() drawn from {0,1,2} (cancelled and caught "
+        "before); 1xx interim responses followed by a stall (oracle only); the real helpers.TimerContext alone, exhaustively: "
+        "initial count 0-3 x nesting depth 1-2 x every sequence of timer-fire / external-cancel of length <= 3 (5 in thorough). "
         "Distinct by scenario content.")
 TRUSTED_BASE = [
     "asyncio: Task.cancel() is delivered at the next resumption and wins over an available result; call_at fires not "
@@ -465,6 +471,37 @@ def gen_compressed_slow(rng):
     return sc
 
 
+INTERIM = [b"HTTP/1.1 103 Early Hints\r\nLink: </x>; rel=preload\r\n\r\n", b"HTTP/1.1 102 Processing\r\n\r\n",
+           b"HTTP/1.1 100 Continue\r\n\r\n"]
+
+
+def gen_interim(rng):
+    """(oracle only while finding C18-K4 is open — the model describes the bounded behaviour) one or two 1xx
+    interim responses, then the peer stalls before / inside the final head, or answers late"""
+    sc = {"t0": rng.choice(T0S), "total": None, "connect": None, "sock_connect": None, "sock_read": None, "holder": None,
+          "dns": None, "co": None, "cancel": None, "stall": "headers", "oracle_only": 1, "interim": 1}
+    sc[rng.choice(["sock_read", "sock_read", "sock_read", "total"])] = rng.choice(TMO_VALUES)
+    t = sc["t0"] + rng.choice([7, 90])
+    sc["conn"] = [t]
+    resp = []
+    for _ in range(rng.choice([1, 1, 2])):
+        w = rng.choice(INTERIM)
+        t += rng.choice([7, 90, 610])
+        resp.append([t, w.hex(), len(w), 0, 0, 0])
+    how = rng.choice(["stall", "stall", "parthead", "late"])
+    wire, headlen, payload = build_response(rng, "cl", 2)
+    if how == "parthead":
+        k = rng.randrange(1, headlen)
+        t += rng.choice([7, 610])
+        resp.append([t, wire[:k].hex(), k, 0, 0, 0])
+    elif how == "late":
+        t += rng.choice([610, 3100, 9000])
+        resp.append([t, wire.hex(), len(wire), 1, 2, 1])
+        sc["stall"] = "none"
+    sc["resp"] = resp
+    return sc
+
+
 def gen_framing(rng):
     """response framing {content-length, chunked, close-delimited} x stall point {before the head,
     inside the head, inside the body, between two chunks, body complete but never closed, none}
@@ -546,7 +583,7 @@ def model_line(sc):
     wstall = 1 if (sc.get("body", 0) > 65536 and sc.get("wresume") is not None) else 0
     return (f"run total={o(sc['total'])} connect={o(sc['connect'])} sc={o(sc['sock_connect'])} sr={o(sc['sock_read'])} "
             f"limit1={limit1} dns={0 if sc.get('dns') is None else 1} naddr={sc.get('naddr', 1)} wstall={wstall} "
-            f"think={sc.get('think', 0)} buf={sc.get('bufsize', 65536)} https={1 if sc.get('tls') is not None else 0} cd={sc.get('cd', 0)} co={1 if co else 0} " + " ".join(toks))
+            f"think={sc.get('think', 0)} buf={sc.get('bufsize', 65536)} https={1 if sc.get('tls') is not None else 0} cd={sc.get('cd', 0)} c0={sc.get('c0', 0)} co={1 if co else 0} " + " ".join(toks))
 
 
 def impl_line(out):
@@ -555,7 +592,8 @@ def impl_line(out):
     live = ",".join(out["live"]) if out["live"] else "-"
     return (f"r={out['r']}@{out['r_at']} hdr={out['hdr_at']} c={out['c']} acq={out['acquired']} wait={out['waiters']} "
             f"pooled={out['pooled_r']} open={out['open_r']} live={live} dnsw={out['dns_waiters']} "
-            f"lookups={out['lookups']} dnscalls={out['dns_calls']} follow={out['follow']}")
+            f"lookups={out['lookups']} dnscalls={out['dns_calls']} follow={out['follow']} "
+            f"cnl={out['c_after'] if out['r'] != 'pending' else '-'}")
 
 
 def gz_response(nbytes):
@@ -635,7 +673,13 @@ def oracle(ctx, sc, out):
             if think_end is not None:
                 b = max(b, bound(think_end, sc["sock_read"]))   # not while the consumer is not reading
             if E > b:
-                bad("bound/sock_read", f"sock_read={sc['sock_read']}: last activity {last}, must fail by {b}, ended {end}")
+                if sc.get("interim"):
+                    bad("bound/sock_read/after-interim-1xx-response",
+                        f"sock_read={sc['sock_read']}: a 1xx interim response arrived, then the peer went silent at {last}; the wait "
+                        f"for the final response head must fail by {b}, ended {end} (data_received drops the read timer for the "
+                        "EMPTY_PAYLOAD of the interim message)", phase=False)
+                else:
+                    bad("bound/sock_read", f"sock_read={sc['sock_read']}: last activity {last}, must fail by {b}, ended {end}")
     # ---- a sock_read timeout may fire only after the peer was silent for sock_read while the client was
     #      willing to read (request sent, transport not paused by the client itself)
     if r == "E_SOCK_TIMEOUT" and sc.get("sock_read"):
@@ -666,6 +710,34 @@ def oracle(ctx, sc, out):
         bad("false-timeout/connect", "ConnectionTimeoutError although neither connect nor sock_connect is configured")
     if r == "E_TIMEOUT" and not out.get("eff_total"):
         bad("false-timeout/total", "TimeoutError although no total timeout is configured")
+    # ---- cancellation vs timeout, and the caller's cancel count
+    c0 = sc.get("c0", 0)
+    cancel_hit = sc.get("cancel") is not None and sc["cancel"] <= E        # the caller cancelled while the request ran
+    wleak = c0 > 0 and sc.get("body", 0) > 65536 and sc.get("wresume") is not None
+    if r == "E_CANCELLED" and not cancel_hit:
+        if wleak:
+            bad("spurious-cancel/writer-cancel-leaks-to-precancelled-caller",
+                f"nobody cancelled the caller during the request (task.cancelling()={c0} from earlier, handled requests) "
+                "yet CancelledError surfaced: the body writer's cancellation is re-raised by "
+                "`_wait_released`/`wait_for_close` because `task.cancelling()` is non-zero", phase=False)
+        else:
+            bad("timeout-surfaced-as-cancel", f"nobody cancelled the caller during the request (task.cancelling()={c0} before) "
+                "yet it ended with CancelledError instead of the documented timeout error / its result")
+    if r != "pending" and out.get("c_after", -1) >= 0:
+        want = c0 + (1 if (cancel_hit and r == "E_CANCELLED") else 0)
+        if out["c_after"] != want and not (cancel_hit and r != "E_CANCELLED"):
+            bad("cancel-count-not-restored", f"task.cancelling() was {c0} before the request and is {out['c_after']} after it "
+                f"(expected {want}; outcome {r})")
+    if cancel_hit and r not in ("E_CANCELLED", "pending"):
+        swallowed_tie = r == "E_TIMEOUT" and out.get("eff_total") and sc["cancel"] == bound(t0, out["eff_total"]) and out["hdr_at"] < 0 \
+            and tr["established"]
+        if swallowed_tie:
+            bad("cancel-swallowed/total-timeout-same-instant-awaiting-headers",
+                "the caller's cancellation arrived in the same loop iteration as the total timeout while awaiting the response "
+                "head: the nested TimerContexts of _request and ClientResponse.start both uncancel(), the request raises "
+                "TimeoutError and the cancellation request is lost", phase=False)
+        else:
+            bad("cancel-swallowed", f"the caller was cancelled at {sc['cancel']} while the request was running, yet it ended with {r} at {end}")
     # ---- residue
     if r != "pending":
         if out["acquired"] != 0:
@@ -819,7 +891,99 @@ def check_ws(ctx):
             ctx.compare(sc, il, ml[i])
 
 
+# ------------------------------------------------------------------------------ TimerContext alone
+def run_timer_ctx(c0, depth, ops):
+    """the real helpers.TimerContext: a task with `c0` handled cancellations enters it `depth` times
+    (nested), parks; `ops` (F = TimerContext.timeout(), X = Task.cancel()) happen before it runs again"""
+    import asyncio
+    from aiohttp.helpers import TimerContext
+    loop = c18env.DLoop()
+    asyncio.set_event_loop(loop)
+    res = {}
+
+    async def main():
+        timer = TimerContext(loop)
+        gate = loop.create_future()
+
+        async def worker():
+            me = asyncio.current_task()
+            for _ in range(c0):
+                me.cancel()
+                try:
+                    await asyncio.sleep(0)
+                except asyncio.CancelledError:
+                    pass
+            try:
+                if depth == 1:
+                    with timer:
+                        await gate
+                else:
+                    with timer:
+                        with timer:
+                            await gate
+                res["r"] = "result"
+            except asyncio.CancelledError:
+                res["r"] = "E_CANCELLED"
+            except asyncio.TimeoutError:
+                res["r"] = "E_TIMEOUT"
+            res["cnl"] = me.cancelling()
+        t = loop.create_task(worker())
+        for _ in range(c0 + 2):
+            await asyncio.sleep(0)
+        for ch in ops:
+            if ch == "F":
+                timer.timeout()
+            else:
+                t.cancel()
+        if not ops:
+            gate.set_result(None)
+        await asyncio.sleep(0.01)
+        return res
+    try:
+        return loop.run_until_complete(main())
+    finally:
+        asyncio.set_event_loop(None)
+        loop.close()
+
+
+def check_timer(ctx):
+    import itertools
+    cases = []
+    for c0 in (0, 1, 2, 3):
+        for depth in (1, 2):
+            for n in range(0, 4 if ctx.quick else 6):
+                for ops in itertools.product("FX", repeat=n):
+                    cases.append((c0, depth, "".join(ops)))
+    ml = ctx.model([f"tc {c0} {depth} {ops or '-'}" for c0, depth, ops in cases])
+    for i, (c0, depth, ops) in enumerate(cases):
+        out = run_timer_ctx(c0, depth, ops)
+        il = f"{out.get('r')} cnl={out.get('cnl')}"
+        case = {"timer_ctx": 1, "stall": "timerctx", "c0": c0, "depth": depth, "ops": ops}
+        ctx.case(case, sample=({"scenario": case, "impl": il} if i % 40 == 0 else None))
+        ctx.hit("timerctx:" + str(out.get("r")))
+        timer_oracle(ctx, case, out)
+        if ml is not None:
+            ctx.compare(case, il, ml[i])
+
+
+def timer_oracle(ctx, case, out):
+    """documented contract of the timeout context, on the real class alone"""
+    c0, depth, ops = case["c0"], case["depth"], case["ops"]
+    ext = ops.count("X")
+    fired = "F" in ops
+    want = "E_CANCELLED" if ext else ("E_TIMEOUT" if fired else "result")
+    if depth == 2 and ext == 1 and fired:
+        return        # known: nested contexts swallow one coinciding external cancellation (judged in the request scenarios)
+    if out.get("r") != want:
+        ctx.violation(f"C18/timer-context/{'timeout-surfaced-as-cancel' if want == 'E_TIMEOUT' else 'wrong-outcome'}", case,
+                      f"task.cancelling()={c0} before, ops={ops!r}, depth={depth}: raised {out.get('r')}, expected {want}")
+    elif want == "E_TIMEOUT" and out.get("cnl") != c0:
+        ctx.violation("C18/timer-context/cancel-count-not-restored", case,
+                      f"task.cancelling() was {c0} before the timeout and is {out.get('cnl')} after it")
+
+
 def check(ctx):
+    check_timer(ctx)
     check_ws(ctx)
     n = 6000 if ctx.quick else 60000
     cases = []
@@ -836,6 +1000,14 @@ def check(ctx):
     cases += [gen_tls(ctx.rng) for _ in range(n // 8)]
     cases += [gen_dns_after(ctx.rng) for _ in range(n // 12)]
     cases += [gen_compressed_slow(ctx.rng) for _ in range(n // 60)]
+    cases += [gen_interim(ctx.rng) for _ in range(n // 40)]
+    for sc in cases:
+        # the calling task may already carry handled cancellation requests (request made from an
+        # `except CancelledError:` handler, or after a swallowed cancel): cancelling() in {0, 1, 2}
+        if "c0" not in sc:
+            sc["c0"] = ctx.rng.choice([0, 0, 0, 1, 1, 2])
+        if sc["c0"] and sc.get("body", 0) > 65536 and sc.get("wresume") is not None:
+            sc["oracle_only"] = 1      # known finding C18-K6 (writer cancel leaks to a pre-cancelled caller): not in the model
     outs = [c18env.run_scenario(to_env(sc)) for sc in cases]
     ml = ctx.model([model_line(sc) if not sc.get("oracle_only") else "run @0:R" for sc in cases])
     for i, (sc, out) in enumerate(zip(cases, outs)):
@@ -848,6 +1020,9 @@ def check(ctx):
 
 
 def replay(ctx, case):
+    if case.get("timer_ctx"):
+        timer_oracle(ctx, case, run_timer_ctx(case["c0"], case["depth"], case["ops"]))
+        return
     if case.get("ws"):
         ws_oracle(ctx, case, c18env.run_ws_scenario(case))
         return
